@@ -205,11 +205,6 @@ Proof. intros H. unfold wval. now rewrite aget_with_stats, H. Qed.
 Lemma aint_with_stats_none h st n : sval st n = None -> aint (with_stats h st) n = aint h n.
 Proof. intros H. unfold aint. now rewrite aget_with_stats, H. Qed.
 
-Lemma abytes_with_stats h st n : abytes (with_stats h st) n = abytes h n.
-Proof.
-  unfold abytes. rewrite aget_with_stats. destruct (sval st n); [|reflexivity].
-Abort.
-
 Lemma aint_with_stats_some h st n z : sval st n = Some z -> aint (with_stats h st) n = z.
 Proof. intros H. unfold aint. now rewrite aget_with_stats, H. Qed.
 
